@@ -10,22 +10,33 @@ import (
 
 func main() {
 	debug.SetGCPercent(1600)
-	vlib.Main("C15",
-		vlib.Group{Name: "pagerank", Gen: genPageRank},
-		vlib.Group{Name: "hits", Gen: genHITS},
-		vlib.Group{Name: "betweenness", Gen: genBetweenness},
-		vlib.Group{Name: "distance", Gen: genDistance},
-		vlib.Group{Name: "laplacian", Gen: genLaplacian},
+	type ph struct {
+		name string
+		gen  func(g *vlib.G, large bool)
+	}
+	phased := []ph{
+		{"pagerank", genPageRank}, {"hits", genHITS}, {"betweenness", genBetweenness}, {"distance", genDistance},
+		{"laplacian", genLaplacian}, {"diffuse", genDiffuse}, {"q", genQ}, {"qmultiplex", genQMultiplex},
+		{"louvain", genLouvain}, {"louvain-multiplex", genLouvainMultiplex}, {"kclique", genKClique},
+	}
+	var groups []vlib.Group
+	// first phase: the small, completely enumerated spaces of every group
+	for _, p := range phased {
+		core, _ := phases(p.gen)
+		groups = append(groups, vlib.Group{Name: p.name, Gen: core})
+	}
+	groups = append(groups,
 		vlib.Group{Name: "laplacian-self-edge", Gen: genLaplacianSelfEdge},
-		vlib.Group{Name: "diffuse", Gen: genDiffuse},
-		vlib.Group{Name: "q", Gen: genQ},
-		vlib.Group{Name: "qmultiplex", Gen: genQMultiplex},
-		vlib.Group{Name: "louvain", Gen: genLouvain},
-		vlib.Group{Name: "louvain-multiplex", Gen: genLouvainMultiplex},
-		vlib.Group{Name: "kclique", Gen: genKClique},
+		vlib.Group{Name: "negative-weight", Gen: genNegativeWeight},
 		vlib.Group{Name: "profile", Gen: genProfile},
 		vlib.Group{Name: "profile-multiplex", Gen: genProfileMultiplex},
-		vlib.Group{Name: "expanded-chain", Gen: genExpandedNil},
-		vlib.Group{Name: "hits-edgeless", Gen: genHITSEdgeless}, // must stay last, see genHITSEdgeless
-	)
+		vlib.Group{Name: "expanded-chain", Gen: genExpandedNil})
+	// second phase: the big spaces
+	for _, p := range phased {
+		_, large := phases(p.gen)
+		groups = append(groups, vlib.Group{Name: p.name + "-large", Gen: large})
+	}
+	// must stay last, see genHITSEdgeless
+	groups = append(groups, vlib.Group{Name: "hits-edgeless", Gen: genHITSEdgeless})
+	vlib.Main("C15", groups...)
 }
